@@ -30,6 +30,7 @@ import (
 	"github.com/ontio/ontology-crypto/keypair"
 	"github.com/ontio/ontology/account"
 	"github.com/ontio/ontology/common"
+	"github.com/ontio/ontology/common/config"
 	"github.com/ontio/ontology/core/store/leveldbstore"
 	"github.com/ontio/ontology/core/store/overlaydb"
 	"github.com/ontio/ontology/core/types"
@@ -145,7 +146,7 @@ func (w *world) call(signers []common.Address, method string, args []byte) (ok b
 	cache := storage.NewCacheDB(w.overlay)
 	tx := &types.Transaction{SignedAddr: signers}
 	sc := &smartcontract.SmartContract{
-		Config:  &smartcontract.Config{Time: 1600000000, Height: 100, Tx: tx},
+		Config:  &smartcontract.Config{Time: 1600000000, Height: config.GetNewOntIdHeight() + 1000, Tx: tx},
 		CacheDB: cache,
 		Gas:     1 << 60,
 	}
